@@ -1,4 +1,5 @@
 """C02 - an interrupted NDEF write never leaves a corrupt message on the tag."""
+import nfc.tag
 from harness import worlds, ndefflow
 from harness.c01_ndef import lens_for
 
@@ -28,6 +29,99 @@ def t3(sx, nbr, nbw, nmaxb, oldlens, lens, emulated, retry=False):
     w = worlds.T3World(sx, nbr, nbw, nmaxb, oldlen, emulated=emulated)
     n = sx.pick("n", [x for x in lens_for(w.cap, lens) if x <= w.cap])
     return ndefflow.cutflow(sx, w, n, retry)
+
+
+class FixedOS(object):
+    """module attribute `os` of nfc.tag.tt3_sony in the FeliCa Lite worlds
+    (the challenge is not what this property quantifies over)"""
+
+    @staticmethod
+    def urandom(n):
+        return bytes(bytearray((0x3C + 11 * i) & 0xFF for i in range(n)))
+
+
+class LiteCutWorld(worlds.World):
+    """FeliCa Lite (IC code F0h) / Lite-S (F1h) from env.tt3lite_sim behind the
+    power-cut hook, NDEF formatted (Nbr 4, Nbw 1, Nmaxb 13) with an old
+    message of `oldlen` octets; real pyDes on both sides, so key, challenge,
+    old and new message are concrete (the quantifier here is the cut point).
+    The first fresh_tag() is the writer, every later one a fresh reader;
+    either authenticates with the card's password before tag.ndef is
+    touched when its switch is on."""
+    PASSWORD = b"0123456789abcdef"
+    concrete_msg = True
+
+    def __init__(self, sx, lite_s, oldlen, writer_authenticates, reader_authenticates):
+        from env import tt3lite_sim
+        import nfc.tag.tt3_sony
+        nfc.tag.tt3_sony.os = FixedOS
+        self.sx, self.lite_s = sx, lite_s
+        self.kind = "tt3lites" if lite_s else "tt3lite"
+        self.writer_authenticates = writer_authenticates
+        self.reader_authenticates = reader_authenticates
+        self.nfresh = 0
+        self.reader_authenticated = False
+        nmaxb = 13
+        attr = [0x10, 4, 1, 0, nmaxb, 0, 0, 0, 0, 0x00, 0x01,
+                0, (oldlen >> 8) & 255, oldlen & 255]
+        cs = sum(attr)
+        blocks = {0: attr + [cs >> 8, cs & 255]}
+        for b in range(1, nmaxb + 1):
+            blocks[b] = [(0x21 + (16 * b + i) * 7 + b) & 0x7F for i in range(16)]
+        data = []
+        for b in range(1, nmaxb + 1):
+            data += blocks[b]
+        self.first_data = dict((b, list(blocks[b])) for b in range(1, nmaxb + 1))
+        self.oldlen = oldlen
+        self.old = sx.mkbytes(data[0:oldlen], False)
+        self.cap = nmaxb * 16
+        key = self.PASSWORD
+        ck = [key[7 - i] for i in range(8)] + [key[15 - i] for i in range(8)]
+        self.sim = tt3lite_sim.LiteHookSim(tt3lite_sim.RealCipher(), lite_s, ck,
+                                           blocks, wcnt=0x0000FE)
+        self.clf = tt3lite_sim.LiteClf(self.sim)
+
+    def target(self):
+        from env import tt3lite_sim
+        return tt3lite_sim.target(self.lite_s)
+
+    def geometry(self, n):
+        return []
+
+    def fresh_tag(self):
+        self.nfresh += 1
+        self.sim.mute = False
+        tag = nfc.tag.activate(self.clf, self.target())
+        if tag is None:
+            return None
+        writer = self.nfresh == 1
+        if (self.writer_authenticates if writer else self.reader_authenticates):
+            if tag.authenticate(self.PASSWORD) is not True:
+                self.sx.check(False, "fault-free-authenticate-fails:" + self.kind)
+            if not writer:
+                self.reader_authenticated = True
+        return tag
+
+    def cut_in_data_phase(self):
+        """the attribute block still says 'write in progress' and at least
+        one data block differs from what the tag held before"""
+        return self.sim.blk[0][9] == 0x0F and any(
+            self.sim.blk[b] != self.first_data[b] for b in self.first_data)
+
+
+def t3lite(sx, lite_s, oldlens, lens, writer_auth, reader_auth, retry=False):
+    oldlen = sx.pick("oldlen", oldlens)
+    w = LiteCutWorld(sx, bool(lite_s), oldlen, bool(writer_auth), bool(reader_auth))
+    n = sx.pick("n", [x for x in lens_for(w.cap, lens) if x <= w.cap])
+    out = ndefflow.cutflow(sx, w, n, retry)
+    if w.nfresh > 1:
+        if w.reader_authenticated:
+            sx.reach("lite_reader_authenticated_after_cut")
+            if w.cut_in_data_phase():
+                sx.reach("lite_authenticated_reader_after_cut_in_data_phase")
+        elif w.cut_in_data_phase():
+            sx.reach("lite_plain_reader_after_cut_in_data_phase")
+    return out
 
 
 def t4(sx, ver, mle, mlc, mfs, oldlens, lens, typ, fsci, retry=False):
@@ -112,6 +206,21 @@ def partitions(tier):
                       params=dict(nbr=4, nbw=1, nmaxb=5, oldlens=[17], lens=[16, 33], emulated=False, **R)))
     parts.append(dict(name="retry:t3emu", fn="t3",
                       params=dict(nbr=4, nbw=3, nmaxb=5, oldlens=[17], lens=[33], emulated=True, **R)))
+    # ---- FeliCa Lite / Lite-S (vendor NDEF classes), writer and fresh
+    # reader plain or authenticated; concrete contents, every cut point
+    lite = [(1, 0, 1), (1, 1, 1), (0, 1, 1), (1, 0, 0), (0, 0, 0)]
+    if tier != "quick":
+        lite += [(1, 1, 0), (0, 0, 1), (0, 1, 0)]
+    for lite_s, wa, ra in lite:
+        parts.append(dict(name="t3lite%s:writer=%s:reader=%s" % (
+            "s" if lite_s else "", "auth" if wa else "plain", "auth" if ra else "plain"),
+            fn="t3lite", params=dict(lite_s=lite_s, oldlens=[17, 33],
+                                     lens=[16, 17, 33, 40] if tier == "quick" else
+                                     [0, 1, 16, 17, 32, 33, 40, "cap"],
+                                     writer_auth=wa, reader_auth=ra)))
+    parts.append(dict(name="retry:t3lites:writer=auth:reader=auth", fn="t3lite",
+                      params=dict(lite_s=1, oldlens=[17], lens=[33], writer_auth=1,
+                                  reader_auth=1, **R)))
     if tier != "quick":
         parts.append(dict(name="retry:t2:496", fn="t2",
                           params=dict(S=496, prefix="NN", rsv=[], oldlens=[255], lens=[40, 256],
@@ -121,7 +230,9 @@ def partitions(tier):
 
 MUST_REACH = ["cut", "cut_before_first_write", "write_completed_without_cut",
               "after_cut_empty", "after_cut_old_or_new", "length_field_straddles_write_unit",
-              "after_cut_not_readable", "retry_completed", "retry_cut"]
+              "after_cut_not_readable", "retry_completed", "retry_cut",
+              "lite_authenticated_reader_after_cut_in_data_phase",
+              "lite_plain_reader_after_cut_in_data_phase"]
 BOUNDS = {"quick": "T2: 48- and 496-byte data areas, NDEF TLV at offsets 0..3 mod 4, old/new lengths on both sides of 254/255, cut before every WRITE; one repetition of the same write through the same tag object after the cut (Type 1 static/dynamic, Type 2, Type 3 and its emulation), itself cut at every point or completed",
           "thorough": "as quick with every new length for the 48-byte area"}
 OUTSIDE = ["torn writes inside one command", "tags that change memory on a failed command",
